@@ -140,6 +140,24 @@ def run(tier):
         ok = okc0 and not okc1
         print("%-70s %s" % ("MonorailTrace explains what a free-running run covered, rejects a dropped target", "ok" if ok else "UNEXPECTED"))
         good &= ok
+        prec = None
+        for i in range(80):
+            r = freerun.scenario(bins, i, _random.Random(4242 + i))
+            if any(e["e"] == "cp_shown" and e["ok"] for e in r["events"]):
+                prec = r
+                break
+        if prec is None:
+            raise vlib.ToolError("no free-running scenario with a checkpoint show reader that answered")
+        okp0, _ = freerun.validate(prec, tmp)
+        wp = copy.deepcopy(prec); wp["idx"] = 907
+        e = next(x for x in wp["events"] if x["e"] == "cp_shown" and x["ok"]); e["pend"]["cf"] = -2          # a checksum no content of the scenario has
+        okp1, _ = freerun.validate(wp, tmp)
+        wq = copy.deepcopy(prec); wq["idx"] = 908
+        e = next(x for x in wq["events"] if x["e"] == "cp_shown" and x["ok"]); e["id"] = 99       # a commit that never existed
+        okp2, _ = freerun.validate(wq, tmp)
+        ok = okp0 and not okp1 and not okp2
+        print("%-70s %s" % ("MonorailTrace explains a concurrent checkpoint show, rejects two corruptions", "ok" if ok else "UNEXPECTED"))
+        good &= ok
     finally:
         shutil.rmtree(tmp, ignore_errors=True)
     if not good:
